@@ -72,11 +72,12 @@ def _is_attr_call(call, attr):
 
 
 class BalanceDomain(Domain):
-    def __init__(self, model, fi, rm, counters):
+    def __init__(self, model, fi, rm, counters, helpers=None):
         self.model = model
         self.fi = fi
         self.rm = rm
         self.counters = counters
+        self.helpers = helpers or {}     # where -> net depth effect
         self.notes = []
         # truthiness correlation is only kept for locals tested more than
         # once (otherwise it only multiplies states)
@@ -92,6 +93,21 @@ class BalanceDomain(Domain):
         self.flaggable = {k for k, v in cnt.items() if v > 1}
 
     # ----------------------------------------------------------- helpers
+    def helper_effect(self, call):
+        """Net stack effect of calling a repo helper that pushes / pops on
+        the namespace it is given (consistent on all its normal exits)."""
+        if not self.helpers:
+            return 0
+        k = getattr(call, '_dt_helper_k', None)
+        if k is None:
+            k = 0
+            for t in self.model.resolve_callee(call.func, self.fi):
+                if t[0] == 'func' and t[1].where in self.helpers and \
+                        t[1] is not self.fi:
+                    k = self.helpers[t[1].where]
+            call._dt_helper_k = k
+        return k
+
     def push_pop(self, call, st):
         """-> ('push'|'pop', fresh?) or None"""
         f = call.func
@@ -149,11 +165,23 @@ class BalanceDomain(Domain):
     # ----------------------------------------------------------- effects
     def apply_calls(self, node, st):
         calls = [c for c in calls_in_order(node)
-                 if self.push_pop(c, st) is not None]
+                 if self.push_pop(c, st) is not None or
+                 self.helper_effect(c)]
         if not calls:
             return st
         st = st.copy()
         for c in calls:
+            if self.push_pop(c, st) is None:
+                k = self.helper_effect(c)
+                # the helper works on the namespace argument it is given
+                fresh = any(isinstance(a, ast.Name) and a.id in st.fresh
+                            for a in c.args)
+                if not fresh:
+                    if st.depth is not None:
+                        st.depth += k
+                    if st.rel is not None:
+                        st.rel += k
+                continue
             kind, fresh = self.push_pop(c, st)
             if fresh:
                 continue
@@ -468,8 +496,8 @@ def pushing_functions(model):
     return out
 
 
-def analyse_function(model, fi, counters, rm):
-    dom = BalanceDomain(model, fi, rm, counters)
+def analyse_function(model, fi, counters, rm, helpers=None):
+    dom = BalanceDomain(model, fi, rm, counters, helpers)
     it = Interp(dom)
     outs = it.run(fi.node, S())
     if it.overflow:
@@ -484,10 +512,44 @@ def rule_balance(model):
                     'every exit')
     rm = RaiseModel(model)
     funcs = pushing_functions(model)
+    # helpers with a consistent net effect (a function that only pushes,
+    # or only pops, for its caller): summarised and accounted for at the
+    # call sites instead of being judged on their own
+    helpers = {}
+    for _ in range(2):
+        for fi, counters in funcs:
+            dom, outs = analyse_function(model, fi, counters, rm, helpers)
+            normal = {o.state.depth for o in outs
+                      if o.kind in (NORMAL, RETURN)}
+            exc = {o.state.depth for o in outs if o.kind == RAISE}
+            if len(normal) == 1 and None not in normal and \
+                    next(iter(normal)) != 0 and exc <= {0} and \
+                    fi.name not in ('__call__', 'render', 'renderwb',
+                                    'renderwob') and _has_callers(
+                                        model, fi):
+                helpers[fi.where] = next(iter(normal))
+    if helpers:
+        # callers of helpers are analysed too
+        known = {f.where for f, _ in funcs}
+        for g in model.all_funcs():
+            if g.where in known:
+                continue
+            for n in own_nodes(g.node):
+                if isinstance(n, ast.Call) and any(
+                        t[0] == 'func' and t[1].where in helpers
+                        for t in model.resolve_callee(n.func, g)):
+                    funcs.append((g, set()))
+                    known.add(g.where)
+                    break
     total_exits = 0
     obligated = 0
     for fi, counters in funcs:
-        dom, outs = analyse_function(model, fi, counters, rm)
+        if fi.where in helpers:
+            r1.instance(fi.where, f'def {fi.node.name}',
+                        f'helper with net effect {helpers[fi.where]:+d} '
+                        '(accounted for at its call sites)')
+            continue
+        dom, outs = analyse_function(model, fi, counters, rm, helpers)
         exits = [o for o in outs if o.kind in (NORMAL, RETURN, RAISE)]
         total_exits += len(exits)
         bad = 0
@@ -544,6 +606,18 @@ def rule_balance(model):
     r1.control('control: pop after body without finally',
                _control_fires(model))
     return [r1, r2]
+
+
+def _has_callers(model, fi):
+    for g in model.all_funcs():
+        if g is fi:
+            continue
+        for n in own_nodes(g.node):
+            if isinstance(n, ast.Call) and any(
+                    t[0] == 'func' and t[1] is fi
+                    for t in model.resolve_callee(n.func, g)):
+                return True
+    return False
 
 
 def _pushes_on_nonfresh(model, fi):
